@@ -7,6 +7,7 @@ import (
 	"fmt"
 	"sort"
 	"strconv"
+	"time"
 
 	dest "github.com/grafana/carbon-relay-ng/destination"
 	"github.com/grafana/carbon-relay-ng/matcher"
@@ -605,5 +606,44 @@ func VerifC15RouteUpdate() {
 	conf := r.config.Load().(consistentHashingConfig)
 	fresh := NewConsistentHasher(conf.Dests())
 	verifAssert(conf.Hasher.GetDestinationIndex(key) == fresh.GetDestinationIndex(key), "update:owner-as-in-a-ring-built-from-scratch")
+	verifCover("end")
+}
+
+// VerifC15RouteConnected: the ring is built from the destinations' CONFIGURED (host, instance) pairs also after the
+// destinations have connected to a live endpoint (connecting goes through updateConn, which re-derives address
+// and instance) and the ring is rebuilt by a later change (Add).
+func VerifC15RouteConnected() {
+	verifEndpointUp(true)
+	ep := verifEndpointAddr()
+	insts := []string{"a", "b", ""}
+	m, _ := matcher.New("", "", "", "", "", "")
+	mk := func(inst string) *dest.Destination {
+		a := ep
+		if inst != "" {
+			a += ":" + inst
+		}
+		d, err := dest.New("chroute", m, a, "/tmp/verif-spool", false, false, 1e9, 1e9, 10, 100, 10, 1000, 10, 1e9, 1e6, 1e6)
+		if err != nil {
+			panic(err)
+		}
+		return d
+	}
+	ds := []*dest.Destination{mk(insts[0]), mk(insts[1])}
+	ri, err := NewConsistentHashing("chroute", m, append([]*dest.Destination{}, ds...))
+	verifAssert(err == nil, "route-created")
+	r := ri.(*ConsistentHashing)
+	verifSettle()
+	if !verifIsSymbolic() {
+		time.Sleep(300 * time.Millisecond)
+	}
+	verifAssert(verifNumConns() >= 2, "destinations-connected")
+	D := mk(insts[2])
+	r.Add(D)
+	verifSettle()
+	ds = append(ds, D)
+	for i, d := range ds {
+		verifAssert(d.Addr == ep && d.Instance == insts[i], "connected-destination-keeps-its-configured-host-and-instance")
+	}
+	verifC15RouteCheck(r, ds, "connected")
 	verifCover("end")
 }
